@@ -1083,6 +1083,45 @@ def gen_meta_program(rng, path, nprocs, fmt=None, hints='-', ohints=None, flush_
                 else:
                     al2.append(list(a))
                 p.tags.add('meta-copy_att')
+        # rename the OLDEST attribute of a list, then delete a younger one that is not the youngest, then look every
+        # remaining one up by name and overwrite the youngest (the name table must renumber the ids behind the deleted one
+        # wherever they sit in their buckets; with small hash tables the renamed id sits behind larger ids)
+        if rng.chance(1, 2):
+            tg = rng.choice(targets)
+            alg = atts.setdefault(id(tg), [])
+            while len(alg) < 4:
+                new_att(tg)
+            nn = 'rn%d' % cnt[0]; cnt[0] += 1
+            p.all('rename_att %s %s %s' % (tname(tg), alg[0][0], nn)); alg[0][0] = nn
+            victim = alg[rng.range(1, len(alg) - 2)]
+            p.all('del_att %s %s' % (tname(tg), victim[0])); alg.remove(victim)
+            for a in alg:
+                p.all('get_att %s %s double' % (tname(tg), a[0]))
+            a = alg[-1]
+            if a[1] == 'char':
+                p.all('put_att %s %s char %d %s' % (tname(tg), a[0], a[2], ''.join('%02x' % rng.range(65, 90) for _ in range(a[2])) or '-'))
+            else:
+                p.all('put_att %s %s %s %d %s' % (tname(tg), a[0], a[1], a[2], ' '.join(str(rng.range(0, 100)) for _ in range(a[2]))))
+            p.all('inq_natts %s' % tname(tg))
+            p.tags.add('meta-rename-oldest-then-delete-middle')
+        # copy over an EXISTING attribute of another type and size (define mode: the value may grow): first create a
+        # small text attribute of the same name at the destination, then copy the numeric one over it
+        al = atts.get(id(t), [])
+        num = [a for a in al if a[1] != 'char' and a[2] >= 1]
+        if num and len(targets) > 1 and rng.chance(1, 2):
+            a = rng.choice(num)
+            t2 = rng.choice([x for x in targets if x is not t])
+            al2 = atts.setdefault(id(t2), [])
+            ex = [x for x in al2 if x[0] == a[0]]
+            if not ex:
+                n0 = rng.range(1, max(1, a[2]))
+                p.all('put_att %s %s char %d %s' % (tname(t2), a[0], n0, ''.join('%02x' % rng.range(97, 122) for _ in range(n0))))
+                al2.append([a[0], 'char', n0])
+                ex = [al2[-1]]
+            p.all('copy_att %s %s %s' % (tname(t), a[0], tname(t2)))
+            ex[0][1], ex[0][2] = a[1], a[2]
+            p.all('get_att %s %s double' % (tname(t2), a[0]))
+            p.tags.add('meta-copy_att-over-existing-other-type')
         if rng.chance(1, 3):
             d = rng.choice(dims)
             nn = 'dim_%d' % cnt[0]; cnt[0] += 1
